@@ -579,6 +579,14 @@ def gen_population(rng, max_agents=7):
     desc = gridw.gen_world(rng, max_side=4, max_agents=max_agents, kinds=learn_kinds,
                            dead_prob=rng.choice([0.0, 0.15, 0.3, 0.5, 0.9]))
     n = len(desc["agents"])
+    if rng.random() < 0.1:
+        # what the small scopes never reach: encodings in the hundreds (above CPython's cached small integers)
+        shift = rng.choice([255, 300, 1000])
+        for a in desc["agents"]:
+            a["enc"] += shift
+        desc["overlap"] = [[e + shift, [x + shift for x in s_]] for e, s_ in desc["overlap"]]
+        if desc.get("overlap0") is not None:
+            desc["overlap0"] = [[e + shift, [x + shift for x in s_]] for e, s_ in desc["overlap0"]]
     encs = sorted({a["enc"] for a in desc["agents"]})
     amap = gen_amap(rng, n)
     emap = gen_emap(rng, encs)
